@@ -369,7 +369,7 @@ class FuncVerifier(object):
         st = State()
         c = self.c
         args = self.fdef.args
-        formal_names = [a.arg for a in args.args]
+        formal_names = [a.arg for a in args.args] + ([args.vararg.arg] if args.vararg is not None else [])
         declared = [p for p, _ in c.params]
         if formal_names != declared:
             raise OutOfFragment('parameter list %r differs from the contract %r' % (formal_names, declared), self.fdef)
@@ -421,6 +421,9 @@ class FuncVerifier(object):
     def fresh_value(self, st, name, t, param=False):
         if isinstance(t, tuple) and t and t[0] == 'const':
             return PyConst(t[1])
+        if isinstance(t, tuple) and t and t[0] == 'varargs':
+            # *name with a fixed number of actual arguments (one contract variant per arity): a Python tuple of fresh values
+            return tuple(self.fresh_value(st, '%s%d' % (name, k), ty, param) for k, ty in enumerate(t[1]))
         if t == 'int':
             return fresh(name, I)
         if t == 'bool':
@@ -1335,6 +1338,17 @@ class FuncVerifier(object):
             return self.inline_call(mfile, mcls, mdef, [a, b], {}, st, n)
         return self.bin(n.op, a, b, st, n)
 
+    def literal_is_index(self, node):
+        """is this numpy.array([...]) literal the index of a subscript (fancy indexing  a[numpy.array([p, q])])?  decided from the
+        syntax: the parent map of the function is built once"""
+        if not hasattr(self, '_parents'):
+            self._parents = {}
+            for par in ast.walk(self.fdef):
+                for ch in ast.iter_child_nodes(par):
+                    self._parents[id(ch)] = par
+        par = self._parents.get(id(node))
+        return isinstance(par, ast.Subscript) and par.slice is node
+
     def cplx_array_op(self, op, a, b, av_a, av_b, st, node):
         """the two complex-array operations of the polynomial class:  0 - cs  (negation)  and  c * cs  (complex scalar times array);
         complex numbers are an uninterpreted sort with cmul / cneg (their arithmetic meaning is an assumption listed in the evidence)"""
@@ -2247,11 +2261,26 @@ class FuncVerifier(object):
                 av = self.deref(v, st)
                 return st.alloc(AV(av.term, av.shape, av.elem))      # numpy.array(a) copies
             raise OutOfFragment('numpy.array(...) of a non-array', n)
+        if short == 'array' and isinstance(n.args[0], ast.List) and n.args[0].elts and all(isinstance(e, ast.List) for e in n.args[0].elts) and not n.keywords:
+            # 2-D integer literal  numpy.array([[..], [..]])
+            rows = [[as_num(self.pev(e, st)) for e in r.elts] for r in n.args[0].elts]
+            if len({len(r) for r in rows}) != 1 or not all(z3.is_int(x) for r in rows for x in r):
+                raise OutOfFragment('2-D array literal form', n)
+            term = fresh('lit2', arr_sort(2, 'int'))
+            for i_, r in enumerate(rows):
+                for j_, v_ in enumerate(r):
+                    st.pc.append(z3.Select(z3.Select(term, i_), j_) == v_)
+            return st.alloc(AV(term, (z3.IntVal(len(rows)), z3.IntVal(len(rows[0]))), 'int'))
         if short == 'array':
             if isinstance(n.args[0], ast.List):
                 items = [self.pev(e, st) for e in n.args[0].elts]
                 if all(is_z3(x) and z3.is_int(x) for x in items):
-                    return IdxList(items)
+                    if self.literal_is_index(n):
+                        return IdxList(items)
+                    term = fresh('lit1', arr_sort(1, 'int'))
+                    for k_, v_ in enumerate(items):
+                        st.pc.append(z3.Select(term, k_) == v_)
+                    return st.alloc(AV(term, (z3.IntVal(len(items)),), 'int'))
             raise OutOfFragment('numpy.array(...) form', n)
         if short == 'reshape':
             # numpy.reshape(a, (L1*L2, -1)) / (L1*L2,) of an array built as a[j1, j2(, c)]: row-major flattening of the first two axes
